@@ -22,7 +22,7 @@ ENCODED = ['BaseConstructor.construct_document', 'BaseConstructor.construct_obje
            'yaml.load / safe_load / safe_load_all', 'loader classes SafeLoader, BaseLoader, CSafeLoader, CBaseLoader (Python halves)']
 BOUNDS = {
     'quick': 'tag: any str with len<=48 over all code points; node kind in {scalar,seq,map}; 4 loader classes; '
-             'core-tag scalar values len<=2; 12 placement contexts',
+             'core-tag scalar values len<=2; 16 placement contexts (4 of them places whose value is overridden and never reaches the result)',
     'thorough': 'same with core-tag scalar values len<=3 and tags len<=64',
 }
 OUTSIDE = ('text -> node for the C loaders (libyaml, not symbolically executable here); tags longer than the bound; '
@@ -160,6 +160,15 @@ def _place(ctx, x):
         return m([(mk, m([(s('k'), x)]))])   # inside a merged mapping
     if ctx == 10:
         return q([q([m([(s('a'), q([x]))])])])
+    # places whose value never reaches the result: it is still part of the document and must be looked at
+    if ctx == 12:
+        return m([(mk, m([(s('k'), x)])), (s('k'), s('own'))])       # merged entry overridden by a key of the merging mapping
+    if ctx == 13:
+        return m([(s('k'), s('own')), (mk, m([(s('k'), x)]))])       # ... the own key coming first
+    if ctx == 14:
+        return m([(mk, q([m([(s('k'), s('first'))]), m([(s('k'), x)])]))])   # overridden by an earlier element of a merge list
+    if ctx == 15:
+        return m([(s('k'), x), (s('k'), s('later'))])                # first of two equal keys
     return m([(s('k'), x), (s('k2'), x)])
 
 
@@ -404,7 +413,7 @@ def jobs(tier):
                   budget=200, bounds='6 registration forms that do not target the safe classes x 4 safe/base classes x 3 node kinds x 3 placements'))
     js.append(Job('history', history, [lambda tag_i, first, lc, kind: 0 <= tag_i < len(HISTORY_TAGS) and 0 <= first <= 2 and 0 <= lc <= 3 and 0 <= kind <= 2],
                   budget=200, bounds='trusted load (3 loaders) of one of %d tags, then the 4 safe/base classes on the same tag, 3 node kinds' % len(HISTORY_TAGS)))
-    for c in range(12):
+    for c in range(16):
         js.append(Job('context/%d' % c, context, [lambda tag, kind, ctx, _c=c: ctx == _c and len(tag) <= L and 0 <= kind <= 2],
                       budget=100, bounds='placement %d, len(tag)<=%d, 3 kinds' % (c, L)))
     js.append(Job('core_value/digit-limit', digit_limit, [lambda n, t: 4296 <= n <= 4305 and 0 <= t < len(SCALAR_KINDS)], budget=120,
